@@ -223,15 +223,23 @@ def set_value_sanitised(ctx, rule='A6'):
 
 
 def decode_assignment(ctx, rule='A5'):
-    fn = ctx.fn(f'{GP}.get_graph')
+    fn = inlined_view(ctx.prog, ctx.fn(f'{GP}.get_graph'))
     cfg = build_cfg(fn)
     sets = guards.call_nodes(cfg, 'set_des_var_value') + guards.call_nodes(cfg, 'correct_value')
     if len(sets) < 2:
         raise AnalysisError('get_graph: design-variable assignment not found')
     # under the existence test of that node
+    # loop variables that are elements of the existence array: `for node, exists in zip(nodes, dv_node_existence)`
+    zipped = set()
+    for lp in ast.walk(fn.node):
+        if isinstance(lp, ast.For) and isinstance(lp.iter, ast.Call) and call_name(lp.iter) == 'zip' and \
+                isinstance(lp.target, ast.Tuple) and len(lp.target.elts) == len(lp.iter.args):
+            zipped |= {norm(t) for t, a in zip(lp.target.elts, lp.iter.args) if 'existence' in norm(a)}
+
     def exists_fact(atom, truth):
         # `not dv_node_existence[i_dv]` false  <=> existence true
-        return truth is True and isinstance(atom, ast.Subscript) and 'existence' in norm(atom.value)
+        return truth is True and ((isinstance(atom, ast.Subscript) and 'existence' in norm(atom.value)) or
+                                  (isinstance(atom, ast.Name) and atom.id in zipped))
     guards.check_guarded(ctx, rule, fn, sets, exists_fact, set(), 'assign-only-if-node-exists',
                          'a design-variable node receives / reports a value only under the test that the node '
                          'exists in the decoded architecture')
